@@ -610,21 +610,29 @@ class DevInfoRsp(Codec):
     def __init__(self):
         self.unroll = {(self.cls + '.decode', 0): MAXREC + 1, (self.cls + '.calculateRtuFrameSize', 0): MAXREC + 1}
 
-    def view(self, E, pfx=''):
-        k = E.choice(pfx + 'objects', list(range(MAXREC + 1)))
+    def view(self, E, pfx='', kmax=MAXREC):
+        k = E.choice(pfx + 'objects', list(range(kmax + 1)))
         free = getattr(self, 'tag', '') in ('dec', 'acc')          # decode takes more/next from the wire; encode computes them (C20)
         v = {'read_code': E.int(pfx + 'read_code', 1, 5), 'conformity': u8(E, pfx + 'conformity'),
              'more_follows': (E.choice(pfx + 'more', [0x00, 0xFF]) if free else 0x00), 'next_object_id': (u8(E, pfx + 'next') if free else 0), 'n': k}
         total = 0
+        same = [False]
         for i in range(k):
-            v['id%d' % i] = u8(E, pfx + 'id%d' % i)
-            if i:
-                E.assume(v['id%d' % (i - 1)] < v['id%d' % i])
-            d = E.bytes(pfx + 'val%d' % i, 1, 244)
+            # an object id may repeat (the class keeps the values of a repeated id in a list); values may be empty
+            rep = bool(i) and E.choice(pfx + 'same_id_as_previous%d' % i, [False, True])
+            same.append(rep) if i else None
+            if rep:
+                v['id%d' % i] = v['id%d' % (i - 1)]
+            else:
+                v['id%d' % i] = u8(E, pfx + 'id%d' % i)
+                if i:
+                    E.assume(v['id%d' % (i - 1)] < v['id%d' % i])
+            d = E.bytes(pfx + 'val%d' % i, 0, 244)
             v['val%d' % i] = d
             total = total + 2 + L.length(d)
         E.assume(total <= 246)
         v['_total'] = total
+        v['_same'] = same[:k]
         return v
 
     def wire(self, E, v):
@@ -634,15 +642,25 @@ class DevInfoRsp(Codec):
         return L.concat(*parts)
 
     def fields(self, E, v):
-        info = {}
+        info, last = {}, None
         for i in range(v['n']):
-            info[v['id%d' % i]] = E.as_bytes(L.tolist(v['val%d' % i]))
+            val = E.as_bytes(L.tolist(v['val%d' % i]))
+            if v['_same'][i]:
+                info[last] = (info[last] if isinstance(info[last], list) else [info[last]]) + [val]
+            else:
+                last = v['id%d' % i]
+                info[last] = val
         return {'sub_function_code': 0x0E, 'read_code': v['read_code'], 'information': info, 'number_of_objects': v['n'], 'conformity': v['conformity'],
                 'next_object_id': v['next_object_id'], 'more_follows': v['more_follows'], 'space_left': 247 - v['_total']}
 
     def read(self, E, obj):
         info = E.get(obj, 'information')
-        items = list(info.items())
+        items = []
+        for key, val in list(info.items()):
+            if isinstance(val, list):
+                items += [(key, x) for x in val]
+            else:
+                items.append((key, val))
         out = {'read_code': E.get(obj, 'read_code'), 'conformity': E.get(obj, 'conformity'), 'more_follows': E.get(obj, 'more_follows'),
                'next_object_id': E.get(obj, 'next_object_id'), 'n': len(items)}
         for i in range(MAXREC + 1):
@@ -651,11 +669,11 @@ class DevInfoRsp(Codec):
         return out
 
     def check_same(self, E, label, got, want, kind='dec'):
-        want = {k: x for k, x in want.items() if k != '_total'}
+        want = {k: x for k, x in want.items() if not k.startswith('_')}
         Codec.check_same(self, E, label, got, want, kind)
 
     def prior(self, E):
-        return self.fields(E, self.view(E, 'old_'))
+        return self.fields(E, self.view(E, 'old_', kmax=1))       # an earlier decode that left one object behind is enough to show that nothing survives
 
 
 def all_codecs():
